@@ -37,6 +37,7 @@ type ExpText struct {
 	Undef bool       `json:"undef"`
 	NoRet bool       `json:"noret"`
 	Skip  bool       `json:"skip"`
+	Why   string     `json:"why"`
 	// optional: the specification's instruction count (C10)
 	Steps int `json:"steps,omitempty"`
 }
@@ -306,7 +307,7 @@ func replayMain(args []string) int {
 	rejectIsViolation := fs.Bool("reject-violation", false, "a compile error on a scope program is a violation")
 	timeoutS := fs.Int("timeout", 30, "per-request wall clock limit (s)")
 	budgetMul := fs.Int("budget-mul", 0, "instruction budget = mul*spec steps + 10000 (0 = no budget)")
-	maxViol := fs.Int("max-violations", 25, "stop recording after this many violations")
+	maxViol := fs.Int("max-violations", 10, "examples recorded per violation signature")
 	fs.Parse(args)
 
 	start := time.Now()
@@ -331,11 +332,15 @@ func replayMain(args []string) int {
 	pool := NewPool(*workers, time.Duration(*timeoutS)*time.Second)
 	defer pool.Close()
 
+	perSig := map[string]int{}
 	addViolation := func(v Violation) {
 		mu.Lock()
 		defer mu.Unlock()
 		rep.NViolations++
-		if len(rep.Violations) < *maxViol {
+		perSig[v.Sig]++
+		// keep a bounded number of examples per signature, so that a frequent
+		// (possibly known) class cannot hide a different one
+		if perSig[v.Sig] <= *maxViol {
 			if *replayDir != "" {
 				os.MkdirAll(*replayDir, 0o755)
 				p := filepath.Join(*replayDir, hashOf([]any{v.Src, v.Text, v.Kind})+".json")
@@ -391,6 +396,12 @@ func replayMain(args []string) int {
 				texts[i] = r.T
 			}
 			req := &Req{Op: "run", Src: src, Texts: texts, WantAst: *wantAst, Mode: *mode}
+			if *budgetMul > 0 {
+				req.Budgets = make([]int, len(ec.R))
+				for i, r := range ec.R {
+					req.Budgets[i] = *budgetMul*r.Steps + 10000
+				}
+			}
 			resp := pool.Do(req)
 			replace := caseHasReplace(c)
 			mu.Lock()
@@ -425,7 +436,7 @@ func replayMain(args []string) int {
 			if resp.Crash != "" {
 				// isolate the text that kills the worker
 				for i := range ec.R {
-					r1 := pool.Do(&Req{Op: "run", Src: src, Texts: [][]int{texts[i]}, Mode: *mode})
+					r1 := pool.Do(&Req{Op: "run", Src: src, Texts: [][]int{texts[i]}, Mode: *mode, Budget: *budgetMul*ec.R[i].Steps + 10000*boolInt(*budgetMul > 0)})
 					evalOne(rep, &mu, addViolation, fields, *prop, c, src, &ec.R[i], r1, 0, replace, *rejectIsViolation, seen, *budgetMul)
 				}
 				return
@@ -458,6 +469,13 @@ func replayMain(args []string) int {
 		os.WriteFile(*reportPath, b, 0o644)
 	} else {
 		os.Stdout.Write(b)
+	}
+	return 0
+}
+
+func boolInt(b bool) int {
+	if b {
+		return 1
 	}
 	return 0
 }
@@ -530,6 +548,15 @@ func evalOne(rep *Report, mu *sync.Mutex, addViolation func(Violation), fields m
 		return
 	}
 	rr := resp.Runs[idx]
+	if et.Steps > 0 && rr.Steps > 0 {
+		mu.Lock()
+		if rr.Steps != et.Steps {
+			rep.OtherDiffs["steps_differ_from_spec"]++
+		} else {
+			rep.OtherDiffs["steps_equal_spec"]++
+		}
+		mu.Unlock()
+	}
 	if rr.Over {
 		addViolation(mk("budget", "budget", fmt.Sprintf("instruction budget exceeded after %d steps", rr.Steps), nil))
 		return
@@ -537,7 +564,7 @@ func evalOne(rep *Report, mu *sync.Mutex, addViolation func(Violation), fields m
 	if rr.Panic != "" {
 		sig := "panic"
 		if et.Undef {
-			sig = "undef-arith" // the specification itself says the transform has no defined value
+			sig = "undef:" + et.Why // the specification itself says the transform has no defined value
 		}
 		addViolation(mk("panic", sig, "Run panicked: "+rr.Panic+" @ "+rr.Stack, nil))
 		return
